@@ -58,6 +58,8 @@ def plan(tier, seed):
     for pre in (None, [], ['ev'], ['sym'], ['sym', 'ev'], 'dir'):
         for fault in (None, 0, 1, 2, 3):
             tasks.append(('post_hook_journal', {'pre': pre, 'fault': fault}))
+    for pre in (None, ['ev']):
+        tasks.append(('post_hook_journal', {'pre': pre, 'fault': None, 'stale_lock': True}))
     import itertools as _it
     for flags in ([], ['-q'], ['--quiet'], ['--porcelain'], ['-m', 'x'], ['-q', '-m', 'x'], ['--dry-run'], ['-q', '--dry-run'], ['-a', '-q']):
         for pc in ('ok', 'fails', 'bare'):
@@ -398,14 +400,29 @@ def ob_post_hook_journal(h, shape):
         return fault_at is not None and k == fault_at
     P.state['fs_fault'] = fault
     repo = mk_repo_c07(M)
-    h.inputs_struct = {'pre': pre, 'fault_at_fs_call': fault_at}
+    h.inputs_struct = {'pre': pre, 'fault_at_fs_call': fault_at, 'stale_lock': bool(shape.get('stale_lock'))}
+    if shape.get('stale_lock'):
+        # left behind by a wrapper that was killed in the middle of an update
+        P.state['fs']['/ai/rewrite_log.lock'] = StringV([])
+        P.state['fs']['/ai/rewrite_log.tmp'] = StringV(list(b'half'))
     ended = 'returned'
+    budget = P.max_steps
+    P.max_steps = P.steps + 300000
     try:
         P.call_named(REPO + '::handle_rewrite_log_event', [Ref(Cell(repo)), mk_event(M, 7), pystring('A <a@b>'), TRUE, FALSE])
     except Panic:
         ended = 'panic'       # absorbed by the guard around the hook bodies: git's status stands
     except ProcessExit as e:
         ended = 'exit'
+    except interp.Inconclusive as e:
+        if 'step budget' not in str(e):
+            raise
+        ended = 'spins'
+    finally:
+        P.max_steps = budget
+    h.require(ended != 'spins', 'K1-journal-step-terminates', 'the journal step does not come back (300000 steps without returning): later git commands hang')
+    if ended == 'spins':
+        return
     h.require(ended != 'exit', 'K1-post-hook-never-ends-the-process', 'after git ran, the journal step ended the process itself (git\'s exit status is lost)')
     h.cover('K1-journal-step-failed', ended == 'panic')
     h.cover('K1-journal-step-ok', ended == 'returned')
@@ -481,7 +498,7 @@ def native_exit_status(native, inp):
         subprocess.call(['rm', '-rf', tmp])
 
 
-def _run_raw(native, kind, payload, judge):
+def _run_raw(native, kind, payload, judge, timeout=120):
     """run vreplay and judge by (return code, stdout, stderr): these kernels are about how the process ends"""
     import json
     import os
@@ -491,7 +508,7 @@ def _run_raw(native, kind, payload, judge):
     home = tempfile.mkdtemp(prefix='vc07h')
     try:
         env = dict(os.environ, HOME=home, GIT_AI_DEBUG='0')
-        p = subprocess.run([exe, kind], input=json.dumps(payload).encode(), stdout=subprocess.PIPE, stderr=subprocess.PIPE, env=env, timeout=120)
+        p = subprocess.run([exe, kind], input=json.dumps(payload).encode(), stdout=subprocess.PIPE, stderr=subprocess.PIPE, env=env, timeout=timeout)
         out = p.stdout.decode('utf-8', 'replace')
         errt = p.stderr.decode('utf-8', 'replace')
         return {'reproduced': bool(judge(p.returncode, out, errt)), 'rc': p.returncode, 'stderr': errt[-400:]}
@@ -512,6 +529,12 @@ def replay(v, native):
     ob = v['obligation']
     if ob.startswith('K1-exit') or ob.startswith('K1-signal'):
         return replay_exit_status(v, native)
+    if ob == 'K1-journal-step-terminates':
+        import subprocess
+        try:
+            return _run_raw(native, 'c07_post_hook_journal', {'pre': 'stale_lock'}, lambda rc, out, errt: False, timeout=25)
+        except subprocess.TimeoutExpired:
+            return {'reproduced': True, 'note': 'the real journal step did not return within 25 s'}
     if ob == 'K1-post-hook-never-ends-the-process':
         # natively only an unreadable journal can be staged (no fault injector): a directory in its place
         return _run_raw(native, 'c07_post_hook_journal', {'pre': 'dir'}, lambda rc, out, errt: rc not in (0, 101))
